@@ -212,11 +212,13 @@ class Groups(SymObject):
     """the list of (cue text, layout) groups, abstracted to: every group appended so far was a
     non-empty text without a blank line (lines_ok) and with balanced, properly nested tags (tags_ok)"""
 
-    def __init__(self, lines_ok, tags_ok):
+    def __init__(self, lines_ok, tags_ok, count=None):
         self.lines_ok, self.tags_ok = lines_ok, tags_ok
+        self.count = z3.IntVal(0) if count is None else count
 
     def append(self, item):
         s = Cue.of(item[0])
+        self.count = self.count + 1
         self.lines_ok = z3.And(self.lines_ok, z3.Not(s.blank), s.state != EMPTY)
         self.tags_ok = z3.And(self.tags_ok, z3.Not(s.bad), s.stack == E0)
 
@@ -246,7 +248,8 @@ def cue_groups(c):
         c.interp.overrides[len] = lambda x: x.length() if isinstance(x, (Cue, Pending)) else old_len(x)
         MASKOF = z3.Function("style_mask", INT, INT)          # the i/u/b flags a style node's content resolves to
         FLAT, M, CUR = z3.Function("FLAT", INT, INT), z3.Function("OPENMASK", INT, INT), z3.Function("CURLAYOUT", INT, INT)
-        p.assume(z3.And(FLAT(0) == 0, CUR(0) == heap.NONE_REF))
+        HASTEXT = z3.Function("HASTEXT", INT, z3.BoolSort())         # a text node among the first k nodes
+        p.assume(z3.And(FLAT(0) == 0, CUR(0) == heap.NONE_REF, z3.Not(HASTEXT(0))))
         node = lambda k: nodes.t[k]
         is_start = lambda k: z3.And(TY[node(k)] == STYLE, ST[node(k)])
         is_end = lambda k: z3.And(TY[node(k)] == STYLE, z3.Not(ST[node(k)]))
@@ -256,6 +259,7 @@ def cue_groups(c):
             return z3.And(FLAT(k + 1) == z3.If(is_start(k), 1, z3.If(is_end(k), 0, FLAT(k))),
                           M(k + 1) == z3.If(is_start(k), MASKOF(CONT[x]), M(k)),
                           CUR(k + 1) == z3.If(TY[x] == TEXT, LAY[x], CUR(k)),
+                          HASTEXT(k + 1) == z3.Or(HASTEXT(k), TY[x] == TEXT),
                           MASKOF(CONT[x]) >= 0, MASKOF(CONT[x]) <= 7)
 
         def dom(k):
@@ -276,11 +280,13 @@ def cue_groups(c):
             pend = Pending.of(S.local("pending_tags"))
             g = S.local("layout_groups")
             g_lines, g_tags = (g.lines_ok, g.tags_ok) if isinstance(g, Groups) else (z3.BoolVal(True), z3.BoolVal(True))
+            g_count = g.count if isinstance(g, Groups) else z3.IntVal(0)
             cl = S.local("current_layout")
             cl_t = cl.t if isinstance(cl, OptLayout) else z3.IntVal(heap.NONE_REF)
             prev_is_text = z3.And(i > 0, TY[node(i - 1)] == TEXT)
             ns = z3.Length(s.stack)
-            return [("no_blank_line_so_far", z3.And(z3.Not(s.blank), g_lines)),
+            return [("a_text_node_yields_a_cue", z3.And(g_count >= 0, z3.Implies(HASTEXT(i), z3.Or(s.state != EMPTY, g_count >= 1)))),
+                    ("no_blank_line_so_far", z3.And(z3.Not(s.blank), g_lines)),
                     ("text_node_leaves_the_line_non_empty", z3.Implies(prev_is_text, s.state == INLINE)),
                     ("states_in_range", z3.And(s.state >= 0, s.state <= 2, s.base >= 0, s.base <= 2, z3.Or(FLAT(i) == 0, FLAT(i) == 1))),
                     ("pending_tags_are_the_trailing_tags", z3.And(z3.Length(pend.tags) == s.ntrail, s.ntrail >= 0, s.ntrail <= ns,
@@ -298,7 +304,7 @@ def cue_groups(c):
         c.interp.loop_hooks[(q, 1)] = loop_rule(
             "nodes", inv, locals_={"s": ("custom", fresh_cue),
                                    "pending_tags": ("custom", lambda p_, v: Pending(z3.Const(p_._name("pending"), SEQ))),
-                                   "layout_groups": ("custom", lambda p_, v: Groups(p_.fresh_bool("lines_ok"), p_.fresh_bool("tags_ok"))),
+                                   "layout_groups": ("custom", lambda p_, v: Groups(p_.fresh_bool("lines_ok"), p_.fresh_bool("tags_ok"), p_.fresh_int("groups"))),
                                    "current_layout": ("custom", lambda p_, v: OptLayout(p_.fresh_int("layout"))),
                                    "resulting_style": ("skip", None), "styles": ("skip", None), "style": ("skip", None),
                                    "tags": ("skip", None), "i": ("skip", None), "node": ("skip", None)})
@@ -319,6 +325,8 @@ def cue_groups(c):
         if isinstance(r, Groups):
             c.ensure("every_cue_text_is_non_empty_and_has_no_blank_line", r.lines_ok)
             c.ensure("every_cue_text_has_balanced_properly_nested_tags", z3.Implies(FLAT(n) == 0, r.tags_ok))
+            p.assume(z3.Implies(n == 0, z3.Not(HASTEXT(n))))
+            c.ensure("a_caption_with_a_text_node_yields_at_least_one_cue", z3.Implies(HASTEXT(n), r.count >= 1))
         else:
             c.ensure("every_cue_text_is_non_empty_and_has_no_blank_line", len(r) == 0)
             c.ensure("every_cue_text_has_balanced_properly_nested_tags", len(r) == 0)
